@@ -72,3 +72,16 @@ func Debug(q string) {
 }
 
 func init() { debugHooks["panics"] = debugPanics }
+
+func init() {
+	debugHooks["reflect"] = func(p *load.Prog, parts []string) {
+		g := cg.New(p, false)
+		ts := g.ReflectTargets()
+		fmt.Println(len(ts))
+		for i, f := range ts {
+			if i < 15 {
+				fmt.Println(" ", f.String(), f.Object() != nil, f.Synthetic)
+			}
+		}
+	}
+}
